@@ -128,6 +128,8 @@ impl Names {
     /// JSON value delivered by the implementation -> model value token
     pub fn val_out(&self, v: &Value) -> String {
         match v {
+            // the time of a connection ($SYS/clients/<id>/connectedSince, extended monitoring) is environment
+            Value::String(s) if s.len() >= 20 && s.as_bytes()[4] == b'-' && s.as_bytes()[10] == b'T' && s[..4].chars().all(|c| c.is_ascii_digit()) => "ts".to_owned(),
             Value::String(s) => self.seg_out(s),
             Value::Number(n) => format!("j:{n}"),
             Value::Array(items) if !items.is_empty() => {
